@@ -9,8 +9,16 @@ Recs == ndJsonDeserialize(IOEnv.TRACEFILE)
 \* The constants are deliberately generous (a refactoring that puts a 4 KiB buffered reader around every nested read
 \* stays inside): what the bound must catch is an allocation proportional to a FORGED count (>= 2^16 elements).
 MaxLim(lim) == Max2(Max2(lim[1], lim[2]), Max2(lim[3], 0))
+\* With limits set the bound is a SUM ("bounded by the input length plus the configured limits"): every count field that is
+\* honoured is backed by input bytes (64 bytes of memory per input byte is several times what copying, append growth and
+\* per-ring / per-member temporaries need), and at each of the three levels at most one count field - the one on which the
+\* input runs dry - may have reserved limit x 32 bytes in vain.  A reservation of count x (size of something else) is a product
+\* and does not fit.  With all limits disabled the old, generous bound applies (only counts backed by input are explored there).
+LimSum(lim) == Max2(lim[1], 0) + Max2(lim[2], 0) + Max2(lim[3], 0)
 AllocBound(n, lim, mx) ==
-  32768 + 4096 * n + (IF lim = <<-1, -1, -1>> THEN 64 * mx * (n + 1) ELSE 16 * (n + 4) * (MaxLim(lim) + 1))
+  IF \E k \in 1..3 : lim[k] = -1
+  THEN 32768 + 4096 * n + (IF lim = <<-1, -1, -1>> THEN 64 * mx * (n + 1) ELSE 16 * (n + 4) * (MaxLim(lim) + 1))
+  ELSE 65536 + 64 * n + 64 * LimSum(lim)
 \* The input is the standard encoding of the geometry the reference decoder reads from it (whole input consumed,
 \* re-encoding gives the same bytes).  Only for such inputs does the property fix WHAT must be returned (C03);
 \* for all other byte strings it demands totality, a well-formed and stable result, and the limit / memory rules -
